@@ -16,6 +16,7 @@ the code by `harness/props/c32.py`.
 | for a given storage index and set of connected servers every client computes the same order | `order_is_function_of_set` (any enumeration / insertion history of the same set, distinct sort keys), `preferred_is_a_set` (order and repetitions in `peers.preferred` are irrelevant) |
 | preferred servers first, then by the hash of storage index and server seed | `preferred_first` (both halves).  SHA-1 itself is not modelled: the digest is an input, computed by hashlib in the harness — correspondence only |
 | with grid-manager keys configured, uploads are only directed to servers that currently hold a valid certificate | `upload_only_permitted` (result = exactly the connected, permitted servers), `upload_filter_applies_to_preferred` (no exemption for preferred servers, seed C32-c), `upload_candidates_hold_valid_certificate_now` and `currently_valid_server_is_offered` (end to end over certificates, keys and the current time through the C33 verifier; the list is a function of the current time only — seeds C32-a, C33-c), `publish_goal_only_permitted`, `publish_new_shares_only_permitted` (mutable publish, seed C32-b) |
+| (histories) after any sequence of announcements and re-announcements the upload set follows each server's latest announcement | `broker_holds_latest_announcement`, `upload_set_depends_only_on_latest`, `upload_candidates_follow_latest_announcement` (seed C32-e); tied by the `hist` lines of `harness/props/c32.py` through the real `_got_announcement` |
 | quantifier: random server sets, seeds, preferred lists, storage indexes, certificate sets and clock values | theorems hold for all lists / keys / times; the tie to the code is `harness/props/c32.py` (histories on long-lived brokers with a stepping clock) and, for `serversAt`, `harness/props/c33.py` (`offer` lines) |
 
 Not covered: connection management (`is_connected` is an input), `HTTPNativeStorageServer`, the
@@ -241,6 +242,62 @@ example :
     (serversAt symVerify parse [1] [7] true (.aware 99) l).map (·.id) = [7, 8] ∧
     (serversAt symVerify parse [1] [7] true (.aware 100) l).map (·.id) = [8] ∧
     (serversAt symVerify parse [1] [7] false (.aware 100) l).map (·.id) = [7, 8] := by decide
+
+/-- The broker holds, for every server id, exactly the server built from the *latest* accepted
+    announcement of that id — for any history of announcements and re-announcements. -/
+theorem broker_holds_latest_announcement (hist : List (Announcement Sig Msg)) (x : Announced Sig Msg) :
+    x ∈ brokerAfter hist ↔ latest x.id hist = some x :=
+  mem_brokerAfter_iff hist x
+
+/-- The server list (hence the upload set) after a history depends only on the latest accepted
+    announcement of each server: two histories that agree on `latest` offer the same servers. -/
+theorem upload_set_depends_only_on_latest (verify : PK → Sig → Msg → Bool) (parse : Msg → Parsed Nat)
+    (keys : List PK) (preferred : List Nat) (forUpload : Bool) (now : Time)
+    (h₁ h₂ : List (Announcement Sig Msg)) (hl : ∀ i, latest i h₁ = latest i h₂) (s : Server) :
+    s ∈ serversAfter verify parse keys preferred forUpload now h₁ ↔
+    s ∈ serversAfter verify parse keys preferred forUpload now h₂ := by
+  have key : ∀ h : List (Announcement Sig Msg),
+      s ∈ serversAfter verify parse keys preferred forUpload now h ↔
+      (∃ x, latest x.id h = some x ∧ toServer verify parse keys now x = s) ∧
+        (s.connected && (!forUpload || s.permitted)) = true := by
+    intro h
+    unfold serversAfter serversAt
+    rw [(perm_getServersForPsi preferred forUpload _).mem_iff, List.mem_filter, List.mem_map]
+    constructor
+    · rintro ⟨⟨x, hx, hxs⟩, hc⟩
+      exact ⟨⟨x, (mem_brokerAfter_iff h x).mp hx, hxs⟩, hc⟩
+    · rintro ⟨⟨x, hx, hxs⟩, hc⟩
+      exact ⟨⟨x, (mem_brokerAfter_iff h x).mpr hx, hxs⟩, hc⟩
+  rw [key h₁, key h₂]
+  simp only [hl]
+
+/-- "…servers that *currently* hold a valid certificate", over announcement histories: every server
+    offered for upload at `now` after any history is connected, and its **latest** announcement
+    contains a certificate that verifies under a configured key, names it and expires after `now`
+    (certificates of earlier announcements do not count — seed C32-e kept using them). -/
+theorem upload_candidates_follow_latest_announcement (verify : PK → Sig → Msg → Bool)
+    (parse : Msg → Parsed Nat) (keys : List PK) (hk : keys ≠ []) (preferred : List Nat) (now : Time)
+    (hist : List (Announcement Sig Msg)) (s : Server)
+    (hs : s ∈ serversAfter verify parse keys preferred true now hist) :
+    ∃ a, latest s.id hist = some a ∧ a.connected = true ∧
+      ∃ c ∈ a.certs, ∃ k ∈ keys, verify k c.signature c.certificate = true ∧
+        ∃ t, parse c.certificate = .dict (.time t) (.ascii a.id) ∧ expiresAfter t now = .ok true := by
+  obtain ⟨a, ha, hid, hconn, hcert⟩ :=
+    upload_candidates_hold_valid_certificate_now verify parse keys hk preferred now _ s hs
+  exact ⟨a, hid ▸ (mem_brokerAfter_iff hist a).mp ha, hconn, hcert⟩
+
+/-- key 1 configured.  Server 7 announces a certificate valid until 500, then re-announces without
+    certificates: not offered any more.  Server 8 announces nothing valid, then re-announces with a
+    certificate: offered.  Server 9's re-announcement has an undecodable entry: refused, its first
+    announcement stays in force. -/
+example :
+    let parse : Nat → Parsed Nat := fun m => .dict (.time (.aware 500)) (.ascii m)
+    let c : Nat → Option (SignedCert SymSig Nat) := fun m => some ⟨m, .signed 1 m⟩
+    let first : List (Announcement SymSig Nat) := [⟨7, true, [c 7], 1⟩, ⟨8, true, [], 2⟩, ⟨9, true, [c 9], 3⟩]
+    let again : List (Announcement SymSig Nat) := [⟨7, true, [], 1⟩, ⟨8, true, [c 8], 2⟩, ⟨9, true, [none], 3⟩]
+    (serversAfter symVerify parse [1] [] true (.aware 100) first).map (·.id) = [7, 9] ∧
+    (serversAfter symVerify parse [1] [] true (.aware 100) (first ++ again)).map (·.id) = [8, 9] ∧
+    (serversAfter symVerify parse [1] [] false (.aware 100) (first ++ again)).map (·.id) = [7, 8, 9] := by decide
 
 end
 
